@@ -1,7 +1,7 @@
 """C09: TDVP is exact on a complete manifold and exactly time-reversible"""
 from .common import deductive_all
 
-LEVEL = 'other'
+LEVEL = 'exploration'
 EXPLANATION = ('Mixed level. Contract obligations generated from the real AST of the functions this property depends on are '
                'discharged deductively for all inputs in exact arithmetic (engines Z/T/F/L, see obligation_list); every clause of the '
                'property that those obligations do not reach, and all floating-point behaviour, is decided by the bounded run-time '
